@@ -1,7 +1,7 @@
 """C15 - parsing is total: Ok or Err, never a panic or hang (runtime crate)."""
 import re
 
-from . import mir, census
+from . import mir, census, rt
 from .mir import Sim, callee, fmt
 
 LEVEL = "other"
@@ -114,6 +114,10 @@ TRIAGE_RULES = [
 ]
 
 
+def is_call_t(t, sub):
+    return isinstance(t, tuple) and t[0] == "call" and mir.call_matches(t[1], sub)
+
+
 def r2_guards(F, res):
     """Guards a regression would remove (progress, one-shot layout flag, layout-parser constants)."""
     rid = res.rule("C15-R2", "retry loops make progress (layout.len() > 0 before `continue`; GLR one-shot flag) and the layout "
@@ -125,7 +129,8 @@ def r2_guards(F, res):
     for p in back:
         prog = False
         for t, v in p.cond:
-            if t[0] == "bin" and t[1] == "Gt" and t[3] == ("const", 0) and mir.has_call(t[2], "Input::len") and v == 1:
+            nz = rt._nonzero_len(t, "Input::len")
+            if nz is not None and v in (0, 1) and (v == 1) == nz:        # len > 0 in any spelling
                 prog = True
         if not prog:
             ok = False
@@ -140,9 +145,13 @@ def r2_guards(F, res):
     back = [p for p in Sim(g, F, max_paths=200000).run() if p.end == "backedge"]
     ok = bool(back)
     for p in back:
-        prog = any(t[0] == "bin" and t[1] == "Gt" and t[3] == ("const", 0) and mir.has_call(t[2], "Input::len") and v == 1
+        prog = any(rt._nonzero_len(t, "Input::len") is not None and v in (0, 1) and (v == 1) == rt._nonzero_len(t, "Input::len")
                    for t, v in p.cond)
-        oneshot = any(e[0] == "set" and e[1] == "layout_parsing" and e[2] == ("const", 0) for e in p.events)
+        # the layout parser gets one try per call: a flag cleared before the retry, or a loop that runs over a fixed array /
+        # range of attempts (`for layout_allowed in [true, false]`)
+        oneshot = any(e[0] == "set" and e[2] == ("const", 0) and g.local_ty(g.local_of_var(e[1]) or 0) == "bool" for e in p.events) or \
+            any(tm[0] == "discr" and is_call_t(tm[1], "Iterator>::next") and ("array::iter::IntoIter" in tm[1][1] or "ops::range::Range" in tm[1][1])
+                for tm, _v in p.cond)
         if not (prog and oneshot):
             ok = False
             res.violation(rid, "glr-find-lookaheads/progress", "GlrParser::find_lookaheads can retry without progress "
@@ -265,14 +274,21 @@ def r2d_boundaries(F, res):
                 calls = [x for x in mir.calls_in(sl)]
                 names = [x[1] for x in calls]
                 has = lambda s: any(s in nme for nme in names)
-                maps = [x for x in calls if x[1].endswith("Iterator::map") and len(x[2]) > 1 and x[2][1][0] == "closure"]
-                tws = [x for x in calls if x[1].endswith("Iterator::take_while") and len(x[2]) > 1 and x[2][1][0] == "closure"]
+                # the mapped / tested function: a closure, or the function item itself (`map(char::len_utf8)`)
+                def fn_callees(a):
+                    if a[0] == "closure":
+                        return closure_callees(F, a[1])
+                    if a[0] == "fn":
+                        return [a[1]]
+                    return []
+                maps = [x for x in calls if x[1].endswith("Iterator::map") and len(x[2]) > 1 and x[2][1][0] in ("closure", "fn")]
+                tws = [x for x in calls if x[1].endswith("Iterator::take_while") and len(x[2]) > 1 and x[2][1][0] in ("closure", "fn")]
                 idx = [x for x in calls if census.INDEX_CALL.search(x[1]) and len(x[2]) > 1]
                 from_pos = any(x[2][1][0] == "agg" and x[2][1][1].endswith("RangeFrom") and is_pos(dict(x[2][1][2]).get("start"))
                                for x in idx)
                 if sl[0] == "call" and sl[1].endswith("Iterator::sum") and has("str>::chars") and maps and tws and from_pos \
-                        and any("len_utf8" in cc for cc in closure_callees(F, maps[0][2][1][1])) \
-                        and any("is_whitespace" in cc for cc in closure_callees(F, tws[0][2][1][1])):
+                        and any("len_utf8" in cc for cc in fn_callees(maps[0][2][1])) \
+                        and any("is_whitespace" in cc for cc in fn_callees(tws[0][2][1])):
                     ok = True
                 else:
                     why = "the skipped length is %s - not the sum of len_utf8 over the leading whitespace chars of input[pos..]" % fmt(sl)[:200]
